@@ -563,6 +563,30 @@ def gen_link_world(rng, wid):
     return {"id": wid, "host": host, "specs": specs, "seed": rng.getrandbits(32), "pool": 0, "links": True}
 
 
+# ----------------------------------------------------------------------------- evaluation errors x serialization errors
+
+def gen_errs_world(rng, wid):
+    """components with 0/1/2+ errors recorded during evaluation (further implementations of the registry point that raise)
+    x 0/1 (single-output) or 0..k (multi-output, per element) errors while the value is serialized, all combinations"""
+    host = rng.random() < 0.7
+    specs = []
+    for i in range(rng.choice([2, 3, 4])):
+        t = rng.choice(["cmd", "cmd", "cmd", "cmd", "foreach", "foreach", "ccmd", "cfile", "file", "ds", "dsmulti", "missingfile", "raise"])
+        sp = gen_spec(rng, i, host)
+        while sp["t"] != t:
+            sp = gen_spec(rng, i, host)
+        if t == "cmd":
+            sp["fail"] = rng.random() < 0.5
+        elif t in ("foreach", "ccmd", "cfile"):
+            mode = rng.choice(["none", "all", "some", "some"])
+            for e in sp["elems"]:
+                e["fail"] = {"none": False, "all": True}.get(mode, rng.random() < 0.5)
+        sp["eval"] = [rng.choice(["content", "calledprocess", "generic"]) for _ in range(rng.choice([0, 1, 1, 1, 2, 2, 3]))]
+        specs.append(sp)
+    pool = rng.choice([0, 0, 0, 2, 3])
+    return {"id": wid, "host": host, "specs": specs, "seed": rng.getrandbits(32), "pool": pool, "errs": True}
+
+
 # ----------------------------------------------------------------------------- failing writers next to successful ones
 
 SECRET = "SECRETX"          # the redaction pattern of the cleaner used in the failure-frame archives
@@ -734,10 +758,34 @@ class World(object):
             impls[name] = self.impl_for(sp, impls)
         self.Specs = SpecSetMeta("Specs", (SpecSet,), points)
         self.Impl = SpecSetMeta("Impl", (self.Specs,), impls)
+        # further implementations of the same registry points that RAISE during evaluation, each under a context
+        # class of its own (so no implementation hides another): the broker records their errors against the point
+        self.eval_ctxs = []
+        depth = max([len(sp.get("eval") or []) for sp in self.desc["specs"]] + [0])
+        for k in range(depth):
+            CtxE = type("CtxE%d" % k, (base,), {})
+            extra = {"__module__": mod}
+            for sp in self.desc["specs"]:
+                ev = sp.get("eval") or []
+                if len(ev) > k:
+                    extra[sp["name"]] = self.failing_impl(CtxE, ev[k], "evtok-%s-%d-" % (sp["name"], k))
+            SpecSetMeta("ImplE%d" % k, (self.Specs,), extra)
+            self.eval_ctxs.append(CtxE)
         self.points = [getattr(self.Specs, sp["name"]) for sp in self.desc["specs"]]
         for sp in self.desc["specs"]:
             for pat in sp.get("filters") or []:
                 filters.add_filter(getattr(self.Specs, sp["name"]), pat)
+
+    @staticmethod
+    def failing_impl(CtxE, kind, token):
+        @datasource(CtxE)
+        def boom(broker):
+            if kind == "content":
+                raise ContentException("content " + token)
+            if kind == "calledprocess":
+                raise CalledProcessError(2, "cmd", token)
+            raise RuntimeError("generic " + token)
+        return boom
 
     def shlex_key(self, cmd):
         import shlex
@@ -905,6 +953,8 @@ class World(object):
         ctx = self.Ctx(root=self.src)
         broker[self.Ctx] = ctx
         self.ctx = ctx
+        for CtxE in self.eval_ctxs:
+            broker[CtxE] = CtxE(root=self.src)
         if self.frame:
             broker["cleaner"] = self.cleaner
         pool = ThreadPoolExecutor(max_workers=self.pool) if self.pool else None
@@ -1012,7 +1062,7 @@ def observe_before(w):
         sp = w.desc["specs"][w.points.index(point)]
         v = w.broker.get(point)
         # exceptions recorded against the spec BEFORE marshal added its own: those of the datasource
-        recorded = 1 if sp["t"] in ("missingfile", "raise") else 0
+        recorded = (1 if sp["t"] in ("missingfile", "raise") else 0) + len(sp.get("eval") or [])
         elems = []
         if v is not None:
             fails = elem_fail_flags(sp)
@@ -1376,6 +1426,35 @@ def _run_world(w, desc, patterns, fail, count):
             if doc is None or not any(e and tok in e for e in doc["errors"]):
                 fail("a failed component was not persisted with its error (%s, looked for %r in the document's errors)" % (sp["t"], tok),
                      _case(desc, spec=sp["name"]), None)
+
+    # ---- ALL errors, from both sources, each exactly once, as whole strings: the tracebacks the broker holds for the
+    #      component (evaluation errors recorded against it + the serialization errors marshal added) = the document's
+    #      `errors`; every injected failure's token occurs in exactly as many entries as failures were injected
+    if not desc.get("frame"):          # (run_all fires the persister repeatedly for one component there)
+        for o in obs:
+            sp, doc = o["sp"], docs[o["name"]]
+            held = [w.broker.tracebacks.get(ex) for ex in w.broker.exceptions.get(o["point"], [])]
+            where = _case(desc, spec=sp["name"])
+            n_eval = len(sp.get("eval") or [])
+            count("errors:evaluation=%s serialization=%s (%s)" % (min(o["recorded"], 3), min(len(held) - o["recorded"], 3),
+                                                                    "multi" if o["mode"] == "m" else "single" if o["mode"] == "s" else "no value"))
+            if not held:
+                continue
+            got = None if doc is None else doc["errors"]
+            if got is None or sorted(map(repr, got)) != sorted(map(repr, held)):
+                fail("the document's errors are not the errors recorded for the component: the broker holds %d (%d from evaluation), "
+                     "the document has %s" % (len(held), o["recorded"], "no document" if got is None else
+                                              "%d: %r" % (len(got), [(e if isinstance(e, str) else repr(e))[-60:] for e in got][:4])), where, None)
+                continue
+            for k in range(n_eval):
+                tok = "evtok-%s-%d-" % (sp["name"], k)
+                if sum(1 for e in got if isinstance(e, str) and tok in e) != 1:
+                    fail("evaluation error %d of the component is not exactly once in the document's errors" % k, where, None)
+            n_boom = sum(1 for f in elem_fail_flags(sp) if f) if sp["t"] not in ("ffile", "fcmd", "fds") else 0
+            if n_boom and sum(1 for e in got if isinstance(e, str) and ("boom-" + sp["name"]) in e) != n_boom:
+                fail("the %d serialization errors of the component are not each once in the document's errors" % n_boom, where, None)
+            if any(not isinstance(e, str) or len(e) < 8 for e in got):
+                fail("an entry of the document's errors is not a whole traceback string: %r" % [e for e in got if not isinstance(e, str) or len(e) < 8][:3], where, None)
 
     # a component NONE of whose elements could be serialized is persisted with its errors ONLY
     for o in obs:
@@ -1831,7 +1910,10 @@ def run(chk):
                 "are subclasses of every stock provider class without registration and subclasses registered as serializer/deserializer pairs "
                 "(kind= of the file factories, datasources returning them, mixed lists), every loaded broker of those and of a quarter of the "
                 "generic archives persisted AGAIN and hydrated again; plus raw and text file / glob specs whose path is a relative link, an absolute "
-                "link into the root, a link elsewhere under the root or a chain of links, next to regular files; plus failure-frame archives: 2-6 components under a HostContext "
+                "link into the root, a link elsewhere under the root or a chain of links, next to regular files; plus archives whose components carry "
+                "0-3 errors recorded during evaluation (further implementations of the registry point raising ContentException / "
+                "CalledProcessError / RuntimeError under contexts of their own) x 0/1 (single) or 0..k (multi, per element) serialization errors, "
+                "serial and pooled; plus failure-frame archives: 2-6 components under a HostContext "
                 "with a cleaner, persisted by dr.run_all over the sub-graphs of one broker, destinations shared at random (same file through "
                 "two registry points with different filters, same save_as), a random subset failing at serialization (empty, empty after "
                 "filtering, empty after cleaning, CalledProcessError from load, destination that cannot be opened), order forced by "
@@ -1901,9 +1983,10 @@ def run(chk):
             chk.sample({"dot-name archive": [dict((k, v) for k, v in sp.items() if k in ("t", "save_as", "cmd", "pattern")) for sp in desc["specs"]]})
 
     # ---- value types beyond the stock ones + second generation; specs collected through symbolic links
-    for tag, gen, n_ in (("kinds", gen_kind_world, 40 if quick else 1500), ("links", gen_link_world, 30 if quick else 1500)):
+    for tag, gen, n_ in (("kinds", gen_kind_world, 40 if quick else 1500), ("links", gen_link_world, 30 if quick else 1500),
+                         ("errs", gen_errs_world, 60 if quick else 2000)):
         for wi in range(n_):
-            desc = gen(rng, (300000 if tag == "kinds" else 400000) + wi)
+            desc = gen(rng, {"kinds": 300000, "links": 400000, "errs": 500000}[tag] + wi)
             pats = gen_patterns(rng, len(desc["specs"]), 1)
             ls, im, kp = run_world(desc, pats, fail, chk.count)
             all_lines += ls; all_impl += im; all_keep += kp
